@@ -204,6 +204,20 @@ CLAIMS = {
             "custom MIR rules: panic-site inventory with interval-lite discharges, guard-edge conditions, aggregate field "
             "provenance, forwarding",
             "3/C16"),
+    "C17": ("Decides on built MIR of emit::level / emit_core::path: MinLevelFilter::matches returns "
+            "`pull::<L>(\"lvl\").as_ref().or_else(self.default).unwrap_or(&L::default()) >= &self.min` (operator, operand "
+            "order, precedence own level > configured default > type default); builders store min/default in the right "
+            "fields; Level is declared Debug < Info < Warn < Error with derived (discriminant) Ord and default Info; the only "
+            "mutation of PathNode::children is one Vec::insert at the Err index of the binary search on the same vector, and "
+            "registration and lookup search with the same function and the same key projection and for the current segment; "
+            "lookup starts from the root level, replaces it with child.min_level.or(previous) inside the walk (closest dominating "
+            "definition of `node`), cannot reach another search from the not-found edge (break, not continue), and returns "
+            "Option<&MinLevelFilter>::matches(evt) over the event's module; registration overwrites exactly the final node; "
+            "Path::segments splits on \"::\"; FromValue for Level is downcast-then-Value::parse. Not decided: the lenient "
+            "level parser's language.",
+            "custom MIR rules: call-chain provenance, dominance-sensitive definitions, who-may-mutate, sibling comparator "
+            "agreement, ADT declaration order",
+            "3/C17"),
 }
 
 REASONS_NOT_YET = "check not built yet (build in progress; DESIGN.md section 3 lists the planned rules)"
